@@ -185,17 +185,15 @@ theorem writeExts_flat (proto : Nat) (exts : List Ext)
     rw [e2, e3, ih (fun x hx => h x (by simp [hx]))]
     simp
 
-theorem checksum_zero_of_valid (b : List Nat) (hv : Valid1071 b) (hlt : exactSum b < 4294967296) :
-    checksum b = 0 := by
-  rw [checksum_eq, Nat.mod_eq_of_lt hlt]
-  obtain ⟨f1, f2, f3⟩ := fold16_spec _ hlt
+theorem checksum_zero_of_valid (b : List Nat) (hwf : BytesWF b) (hv : Valid1071 b) : checksum b = 0 := by
+  obtain ⟨f, hc, f1, f2, f3⟩ := checksum_spec b hwf
   obtain ⟨v1, v2⟩ := hv
-  generalize fold16 (exactSum b) = f at *
+  rw [hc]
   omega
 
 /-- The extension header the code writes (version 2, checksum over header and objects) passes
 `validExtensionHeader`. -/
-theorem validHdr (E : List Nat) (hwf : BytesWF E) (hlen : E.length + 4 ≤ 131072) :
+theorem validHdr (E : List Nat) (hwf : BytesWF E) :
     validExtensionHeader (32 :: 0 :: (checksum (32 :: 0 :: 0 :: 0 :: E) % 256) ::
       (checksum (32 :: 0 :: 0 :: 0 :: E) / 256 % 256) :: E) = true := by
   have hpre : BytesWF ([32, 0] ++ 0 :: 0 :: E) := by
@@ -203,7 +201,7 @@ theorem validHdr (E : List Nat) (hwf : BytesWF E) (hlen : E.length + 4 ≤ 13107
     simp only [List.cons_append, List.nil_append, List.mem_cons] at hb
     rcases hb with h | h | h | h | h
     all_goals first | omega | exact hwf b h
-  have hv := checksum_rfc1071 [32, 0] E (by rfl) hpre (by simp; omega)
+  have hv := checksum_rfc1071 [32, 0] E (by rfl) hpre
   rw [xorCsumAt_zero] at hv
   have hc256 : checksum ([32, 0] ++ 0 :: 0 :: E) < 65536 := by unfold checksum; omega
   have hwf2 : BytesWF ([32, 0] ++ (checksum ([32, 0] ++ 0 :: 0 :: E) % 256) ::
@@ -212,11 +210,7 @@ theorem validHdr (E : List Nat) (hwf : BytesWF E) (hlen : E.length + 4 ≤ 13107
     simp only [List.cons_append, List.nil_append, List.mem_cons] at hb
     rcases hb with h | h | h | h | h
     all_goals first | omega | exact hwf b h
-  have hle := exactSum_le _ hwf2
-  have hlen2 : ([32, 0] ++ (checksum ([32, 0] ++ 0 :: 0 :: E) % 256) ::
-      (checksum ([32, 0] ++ 0 :: 0 :: E) / 256 % 256) :: E).length = E.length + 4 := by simp
-  rw [hlen2] at hle
-  have hz := checksum_zero_of_valid _ hv (by omega)
+  have hz := checksum_zero_of_valid _ hwf2 hv
   simp only [List.cons_append, List.nil_append] at hz hc256
   generalize checksum (32 :: 0 :: 0 :: 0 :: E) = c at *
   unfold validExtensionHeader
@@ -349,7 +343,7 @@ theorem exts_length_le (proto : Nat) (exts : List Ext) (hok : ∀ e ∈ exts, Ob
 the extension objects), whatever the two unused leading octets are. -/
 theorem parseMultipart_ext (proto typ : Nat) (hp : proto = protocolICMP ∨ proto = protocolIPv6ICMP)
     (hx : isExtEchoRequest proto typ = false) (data : List Nat) (exts : List Ext) (hne : exts ≠ [])
-    (hok : ∀ e ∈ exts, ObjOK proto e) (hbig : (exts.map (Ext.len proto)).sum + 4 ≤ 131072)
+    (hok : ∀ e ∈ exts, ObjOK proto e)
     (h0 h1 h2 h3 : Nat)
     (hl : (if proto = protocolICMP then 4 * h1 else if proto = protocolIPv6ICMP then 8 * h0 else 0) =
       origDatagramLen proto data.length) :
@@ -386,7 +380,7 @@ theorem parseMultipart_ext (proto typ : Nat) (hp : proto = protocolICMP ∨ prot
     have hdrop : (padded proto data ++ extStruct proto exts).drop (origDatagramLen proto data.length) = extStruct proto exts := by
       rw [← hD, List.drop_left]
     have hvalid : validExtensionHeader (extStruct proto exts) = true :=
-      validHdr (extBytes proto exts) (extBytes_wf proto exts hok) (by rw [hEl]; omega)
+      validHdr (extBytes proto exts) (extBytes_wf proto exts hok)
     rw [hdrop, hvalid]
     simp only [Bool.not_true, Bool.false_eq_true, if_false]
     have hdrop2 : (padded proto data ++ extStruct proto exts).drop (origDatagramLen proto data.length + 4) = extBytes proto exts := by
@@ -406,6 +400,31 @@ theorem parseMultipart_ext (proto typ : Nat) (hp : proto = protocolICMP ∨ prot
 def lengthAttrFits (proto : Nat) (data : List Nat) : Prop :=
   if proto = protocolICMP then origDatagramLen proto data.length / 4 < 256
   else origDatagramLen proto data.length / 8 < 256
+
+theorem lengthAttrOK_of_fits (proto : Nat) (hp : proto = protocolICMP ∨ proto = protocolIPv6ICMP)
+    (data : List Nat) (exts : List Ext) (hL : 0 < (exts.map (Ext.len proto)).sum)
+    (hfit : lengthAttrFits proto data) : lengthAttrOK proto data exts = true := by
+  unfold lengthAttrOK lengthAttrFits at *
+  rw [multipartLens_ext proto data exts hL]
+  have hne6 : ¬ (protocolIPv6ICMP = protocolICMP) := by decide
+  rcases hp with h | h <;> subst h <;> simp [hne6] at hfit ⊢ <;> omega
+
+/-- **The repaired range check**: when the length attribute does not fit its octet, `Marshal` refuses
+(`errInvalidBody`) instead of emitting a message that cannot be parsed back. -/
+theorem lengthAttr_rejected (proto : Nat) (hp : proto = protocolICMP ∨ proto = protocolIPv6ICMP)
+    (data : List Nat) (exts : List Ext) (hL : 0 < (exts.map (Ext.len proto)).sum)
+    (hfit : ¬ lengthAttrFits proto data) :
+    Body.marshal proto (.dstUnreach data exts) = none ∧ Body.marshal proto (.timeExceeded data exts) = none := by
+  have hno : lengthAttrOK proto data exts = false := by
+    unfold lengthAttrOK lengthAttrFits at *
+    rw [multipartLens_ext proto data exts hL]
+    have hne6 : ¬ (protocolIPv6ICMP = protocolICMP) := by decide
+    have hlen : exts.length > 0 := by
+      cases exts with
+      | nil => simp at hL
+      | cons _ _ => simp
+    rcases hp with h | h <;> subst h <;> simp [hne6, hlen] at hfit ⊢ <;> omega
+  constructor <;> simp [Body.marshal, hno]
 
 theorem lenAttr_v4 (data : List Nat) (hfit : lengthAttrFits protocolICMP data) (h0 : Nat) :
     (if protocolICMP = protocolICMP then 4 * (origDatagramLen protocolICMP data.length / 4 % 256)
@@ -429,8 +448,7 @@ theorem lenAttr_v6 (data : List Nat) (hfit : lengthAttrFits protocolIPv6ICMP dat
 zero-padded datagram (RFC 4884 padding is not distinguishable from data) and exactly the extensions. -/
 theorem dstUnreach_ext_roundtrip (proto typ : Nat) (ht : typ < 256) (hk : parserKind proto typ = .du)
     (code : Int) (hc : 0 ≤ code ∧ code < 256) (data : List Nat) (exts : List Ext) (hne : exts ≠ [])
-    (hok : ∀ e ∈ exts, ObjOK proto e) (hval : validExtensions proto typ exts = true)
-    (hbig : (exts.map (Ext.len proto)).sum + 4 ≤ 131072) (hfit : lengthAttrFits proto data) :
+    (hok : ∀ e ∈ exts, ObjOK proto e) (hval : validExtensions proto typ exts = true) (hfit : lengthAttrFits proto data) :
     ∃ wire, (mkMsg proto typ code (.dstUnreach data exts)).marshal none = some wire ∧
       (parseMessage proto wire).map (fun m => (m.proto, m.typ, m.code, m.body)) =
         some (proto, typ, code, .dstUnreach (padded proto data) exts) := by
@@ -444,7 +462,7 @@ theorem dstUnreach_ext_roundtrip (proto typ : Nat) (ht : typ < 256) (hk : parser
   have hL := extLen_pos proto exts hne hok
   apply roundtrip_of proto typ hp ht code hc _ _ (marshalMultipart proto true data exts)
   · unfold bodyBytes mkMsg
-    simp only [Body.len, Body.marshal, hty, hval]
+    simp only [Body.len, Body.marshal, hty, hval, lengthAttrOK_of_fits proto hp data exts hL hfit]
     rw [multipartLens_ext proto data exts hL]
     simp
   · rw [marshalMultipart_ext proto hp data exts hne hok]
@@ -458,20 +476,19 @@ theorem dstUnreach_ext_roundtrip (proto typ : Nat) (ht : typ < 256) (hk : parser
     rcases hp with h | h
     · subst h
       simp only [if_true, List.cons_append, List.nil_append, List.append_assoc]
-      rw [parseMultipart_ext protocolICMP typ (Or.inl rfl) hx data exts hne hok hbig 0 _ 0 0
+      rw [parseMultipart_ext protocolICMP typ (Or.inl rfl) hx data exts hne hok 0 _ 0 0
         (lenAttr_v4 data hfit 0)]
     · subst h
       have hne6 : ¬ (protocolIPv6ICMP = protocolICMP) := by decide
       simp only [hne6, if_false, List.cons_append, List.nil_append, List.append_assoc]
-      rw [parseMultipart_ext protocolIPv6ICMP typ (Or.inr rfl) hx data exts hne hok hbig _ 0 0 0
+      rw [parseMultipart_ext protocolIPv6ICMP typ (Or.inr rfl) hx data exts hne hok _ 0 0 0
         (lenAttr_v6 data hfit 0)]
 
 /-- **Time exceeded WITH extensions** (ICMPv4 and ICMPv6): the parsed message carries the
 zero-padded datagram (RFC 4884 padding is not distinguishable from data) and exactly the extensions. -/
 theorem timeExceeded_ext_roundtrip (proto typ : Nat) (ht : typ < 256) (hk : parserKind proto typ = .te)
     (code : Int) (hc : 0 ≤ code ∧ code < 256) (data : List Nat) (exts : List Ext) (hne : exts ≠ [])
-    (hok : ∀ e ∈ exts, ObjOK proto e) (hval : validExtensions proto typ exts = true)
-    (hbig : (exts.map (Ext.len proto)).sum + 4 ≤ 131072) (hfit : lengthAttrFits proto data) :
+    (hok : ∀ e ∈ exts, ObjOK proto e) (hval : validExtensions proto typ exts = true) (hfit : lengthAttrFits proto data) :
     ∃ wire, (mkMsg proto typ code (.timeExceeded data exts)).marshal none = some wire ∧
       (parseMessage proto wire).map (fun m => (m.proto, m.typ, m.code, m.body)) =
         some (proto, typ, code, .timeExceeded (padded proto data) exts) := by
@@ -485,7 +502,7 @@ theorem timeExceeded_ext_roundtrip (proto typ : Nat) (ht : typ < 256) (hk : pars
   have hL := extLen_pos proto exts hne hok
   apply roundtrip_of proto typ hp ht code hc _ _ (marshalMultipart proto true data exts)
   · unfold bodyBytes mkMsg
-    simp only [Body.len, Body.marshal, hty, hval]
+    simp only [Body.len, Body.marshal, hty, hval, lengthAttrOK_of_fits proto hp data exts hL hfit]
     rw [multipartLens_ext proto data exts hL]
     simp
   · rw [marshalMultipart_ext proto hp data exts hne hok]
@@ -499,27 +516,26 @@ theorem timeExceeded_ext_roundtrip (proto typ : Nat) (ht : typ < 256) (hk : pars
     rcases hp with h | h
     · subst h
       simp only [if_true, List.cons_append, List.nil_append, List.append_assoc]
-      rw [parseMultipart_ext protocolICMP typ (Or.inl rfl) hx data exts hne hok hbig 0 _ 0 0
+      rw [parseMultipart_ext protocolICMP typ (Or.inl rfl) hx data exts hne hok 0 _ 0 0
         (lenAttr_v4 data hfit 0)]
     · subst h
       have hne6 : ¬ (protocolIPv6ICMP = protocolICMP) := by decide
       simp only [hne6, if_false, List.cons_append, List.nil_append, List.append_assoc]
-      rw [parseMultipart_ext protocolIPv6ICMP typ (Or.inr rfl) hx data exts hne hok hbig _ 0 0 0
+      rw [parseMultipart_ext protocolIPv6ICMP typ (Or.inr rfl) hx data exts hne hok _ 0 0 0
         (lenAttr_v6 data hfit 0)]
 
 /-- **Parameter problem (ICMPv4) WITH extensions.** -/
 theorem paramProb_v4_ext_roundtrip (typ : Nat) (ht : typ < 256) (hk : parserKind protocolICMP typ = .pp)
     (code ptr : Int) (hc : 0 ≤ code ∧ code < 256) (hptr : 0 ≤ ptr ∧ ptr < 256) (data : List Nat) (exts : List Ext)
     (hne : exts ≠ []) (hok : ∀ e ∈ exts, ObjOK protocolICMP e)
-    (hval : validExtensions protocolICMP v4ParamProb exts = true)
-    (hbig : (exts.map (Ext.len protocolICMP)).sum + 4 ≤ 131072) (hfit : lengthAttrFits protocolICMP data) :
+    (hval : validExtensions protocolICMP v4ParamProb exts = true) (hfit : lengthAttrFits protocolICMP data) :
     ∃ wire, (mkMsg protocolICMP typ code (.paramProb ptr data exts)).marshal none = some wire ∧
       (parseMessage protocolICMP wire).map (fun m => (m.proto, m.typ, m.code, m.body)) =
         some (protocolICMP, typ, code, .paramProb ptr (padded protocolICMP data) exts) := by
   have hL := extLen_pos protocolICMP exts hne hok
   apply roundtrip_of protocolICMP typ (Or.inl rfl) ht code hc _ _ ((marshalMultipart protocolICMP true data exts).set 0 (u8 ptr))
   · unfold bodyBytes mkMsg
-    simp only [Body.len, Body.marshal, hval]
+    simp only [Body.len, Body.marshal, hval, lengthAttrOK_of_fits protocolICMP (Or.inl rfl) data exts hL hfit]
     rw [multipartLens_ext protocolICMP data exts hL]
     simp
   · rw [marshalMultipart_ext protocolICMP (Or.inl rfl) data exts hne hok]
@@ -530,7 +546,7 @@ theorem paramProb_v4_ext_roundtrip (typ : Nat) (ht : typ < 256) (hk : parserKind
     have hne6 : ¬ (protocolICMP = protocolIPv6ICMP) := by decide
     simp only [hlen4, if_false, hne6]
     have hx := kind_not_xreq protocolICMP typ (Or.inr (Or.inr hk))
-    rw [parseMultipart_ext protocolICMP typ (Or.inl rfl) hx data exts hne hok hbig (u8 ptr) _ 0 0
+    rw [parseMultipart_ext protocolICMP typ (Or.inl rfl) hx data exts hne hok (u8 ptr) _ 0 0
       (lenAttr_v4 data hfit (u8 ptr))]
     have := u8_id ptr hptr.1 hptr.2
     simp [this]
@@ -539,7 +555,6 @@ theorem paramProb_v4_ext_roundtrip (typ : Nat) (ht : typ < 256) (hk : parserKind
 theorem dstUnreach_mpls_roundtrip (proto typ : Nat) (ht : typ < 256) (hk : parserKind proto typ = .du)
     (code : Int) (hc : 0 ≤ code ∧ code < 256) (data : List Nat) (stacks : List (List MplsLabel))
     (hne : stacks ≠ []) (hwf : ∀ ls ∈ stacks, (∀ l ∈ ls, LabelWF l) ∧ ls.length ≤ 16000)
-    (hbig : ((stacks.map (fun ls => Ext.mpls 1 1 ls)).map (Ext.len proto)).sum + 4 ≤ 131072)
     (hfit : lengthAttrFits proto data) :
     ∃ wire, (mkMsg proto typ code (.dstUnreach data (stacks.map (fun ls => Ext.mpls 1 1 ls)))).marshal none = some wire ∧
       (parseMessage proto wire).map (fun m => (m.proto, m.typ, m.code, m.body)) =
@@ -547,7 +562,7 @@ theorem dstUnreach_mpls_roundtrip (proto typ : Nat) (ht : typ < 256) (hk : parse
   apply dstUnreach_ext_roundtrip proto typ ht hk code hc data _ (by
       cases stacks with
       | nil => exact absurd rfl hne
-      | cons a r => simp) ?_ ?_ hbig hfit
+      | cons a r => simp) ?_ ?_ hfit
   · intro e he
     simp only [List.mem_map] at he
     obtain ⟨ls, hls, rfl⟩ := he
